@@ -74,7 +74,20 @@ class SqliteImpl(SqlImpl):
 
     @classmethod
     def fix_fn_types(cls, fn: ColFn, val: sqa.ColumnElement, *args: sqa.ColumnElement) -> sqa.ColumnElement:
-        if fn.op in (ops.horizontal_min, ops.horizontal_max, ops.mean, ops.min, ops.max) and fn.dtype().is_float():
+        if (
+            fn.op
+            in (
+                ops.horizontal_min,
+                ops.horizontal_max,
+                ops.mean,
+                ops.min,
+                ops.max,
+                ops.coalesce,
+                ops.fill_null,
+                ops.clip,
+            )
+            and fn.dtype().is_float()
+        ):
             return sqa.cast(val, sqa.Double)
         return val
 
